@@ -296,6 +296,9 @@ func c19Run(s *Shard) {
 		{M{"alternative": "a", "coefficient": 1.0}, M{"alternative": "c", "coefficient": 0.5}},
 		{M{"alternative": "b", "coefficient": 2.0}, M{"alternative": "a", "coefficient": 1.0}},
 		{M{"alternative": "a", "coefficient": 1.0}, M{"alternative": "b", "coefficient": 1.0}, M{"alternative": "c", "coefficient": 1.0}},
+		// one alternative named twice with different coefficients: every entry takes part in the reduction
+		{M{"alternative": "a", "coefficient": 1.0}, M{"alternative": "c", "coefficient": 2.0}, M{"alternative": "a", "coefficient": 3.0}},
+		{M{"alternative": "a", "coefficient": 3.0}, M{"alternative": "c", "coefficient": 2.0}, M{"alternative": "a", "coefficient": 0.5}},
 	}
 	lin := func(a, b float64) M { return M{"function": "linear", "params": M{"a": a, "b": b}} }
 	exp := func(al, mu float64) M {
